@@ -47,6 +47,11 @@ def model_phase(c, tier):
 def trace_phase(c, tier, extra_cases, corrupt=0):
     n, shards = (700, 16) if tier == "quick" else (25000, 16)
     path = os.path.join(vlib.WORK, "%s_trace.ndjson" % c.pid.lower())
+    # + the rule-mix family (closed rule x span passing midnight x fallback) derived by TLC from the MC_DayEval alphabet
+    _, mix = common.rule_mix_cases(c, 25 if tier == "quick" else 3)
+    with open(extra_cases, "a") as f:
+        for x in mix:
+            f.write(json.dumps(x) + "\n")
     args = ["record", "normalize", "--seed", c.seed, "--n", n, "--cases", extra_cases]
     if corrupt:
         args += ["--corrupt", corrupt]
